@@ -14,6 +14,8 @@ MODULES = ['nl.bsn', 'nl.onderwijsnummer', 'pl.nip', 'pl.regon', 'pt.nif', 'dk.c
            'de.idnr', 'de.wkn', 'dz.nif', 'eu.banknote', 'eu.eic', 'fo.vn',
            'ec.ruc', 'es.ccc', 'es.postal_code', 'eu.ecnumber', 'eu.oss', 'gh.tin', 'gn.nifp', 'il.hp', 'in_.aadhaar', 'in_.vid',
            'in_.epic', 'it.aic', 'mc.tva', 'nl.postcode', 'nl.brin', 'nl.identiteitskaartnummer', 'no.kontonr', 'pk.cnic',
+           'ad.nrt', 'bg.pnf', 'do.ncf', 'es.cae', 'fi.ytunnus', 'fr.nif', 'gb.upn', 'ie.vat', 'pe.cui', 'pt.cc', 'ru.ogrn',
+           'se.postnummer', 'se.vat', 'si.maticna', 'sm.coe', 'sv.nit', 'th.moa', 'at.tin',
            'no.fodselsnummer', 'fi.hetu', 'ch.ssn', 'lv.pvn', 'pl.pesel', 'ee.ik']
 
 
